@@ -118,3 +118,32 @@ func VerifItemCounts(t *Transaction) [][3]any {
 	}
 	return out
 }
+
+// VerifValueIDs: per opened [int,string] store whose values live in their own segment (not actively persisted):
+// the ids under which commitTrackedItemsValues will write value blobs (tracked add/update items that carry a value).
+func VerifValueIDs(t *Transaction) map[string][]sop.UUID {
+	out := map[string][]sop.UUID{}
+	for _, s := range t.btreesBackend {
+		si := s.getStoreInfo()
+		if si.IsValueDataInNodeSegment || si.IsValueDataActivelyPersisted {
+			continue
+		}
+		b3, ok := s.btree.(*btree.Btree[int, string])
+		if !ok {
+			continue
+		}
+		iat, ok := btree.VerifStoreInterface(b3).ItemActionTracker.(*itemActionTracker[int, string])
+		if !ok {
+			continue
+		}
+		for _, ci := range iat.items {
+			if ci.persisted {
+				continue
+			}
+			if (ci.Action == addAction || ci.Action == updateAction) && ci.item.Value != nil && !(ci.Action == updateAction && ci.item.ValueNeedsFetch) {
+				out[si.Name] = append(out[si.Name], ci.item.ID)
+			}
+		}
+	}
+	return out
+}
